@@ -177,6 +177,9 @@ class NodeTrace:
         self.unsolicited = []     # (step, number, kind): revocation stored without a newer commitment recorded
         self.unrecorded_signs = []  # (step, number, act, t, prev_aw, prev_mpc)
         self.inject_states = []   # (kind, receiver state label)
+        self.holder_update = {}   # holder commitment number -> id of the monitor update that carried it
+        self.reloaded_since = {}
+        self.early_release = []   # (step, number, update id, act, t)
         self.early_accepted = []  # (step, number, kind): raa_early accepted while the commitment_signed was still pending on a monitor update
 
     def add_step(self, step, obs):
@@ -291,6 +294,20 @@ class NodeTrace:
         for mu in obs.get("mon", []) or []:
             for num in mu.get("cp", []):
                 self.cp_recorded.add(num)
+            if any(k.startswith("LatestHolderCommitment") for k in mu.get("kinds", [])):
+                # the update that carries the holder commitment validated in this step
+                for l in log:
+                    if l[0] == "validate_holder":
+                        self.holder_update[l[1]] = mu["id"]
+        # (iii) a secret is released only once the monitor update carrying the successor commitment is PERSISTED
+        for l in log:
+            if l[0] == "release":
+                uid = self.holder_update.get(l[1] - 1)
+                if uid is not None and uid in (obs.get("pend") or []) and not self.reloaded_since.get(l[1] - 1):
+                    self.early_release.append((step["i"], l[1], uid, act, t))
+        if mine and act in ("reload", "reload_stale"):
+            for k in self.holder_update:
+                self.reloaded_since[k] = True
         # ---- implementation event list for the policy judge
         for l in log:
             kind, num = l[0], l[1]
@@ -426,6 +443,9 @@ def judge_node(tr):
                         "key_override": KNOWN_F1 if known else None})
         if num not in seen or not seen[num][0]:
             seen[num] = (txid, sti)
+    for (sti, num, uid, act, t) in tr.early_release[:1]:
+        out.append({"why": "the revocation secret of commitment %d was released while the monitor update carrying its successor (update_id %d) is still being persisted: the state is revoked before the newer one is durably held (step %d, %s%s)"
+                           % (num, uid, sti, act, "/" + str(t) if t else "")})
     for (sti, num, kind) in tr.unsolicited[:1]:
         out.append({"why": "a revoke_and_ack was accepted and its secret stored for counterparty commitment %d although no newer commitment (%d) was ever built and handed to the monitor: the counterparty commitment number advanced without an update (step %d, delivered message: %s)"
                            % (num, num - 1, sti, kind or "as sent")})
@@ -497,9 +517,13 @@ def revoke_corr(ctx, model_ok, release=False):
             panics.append({"why": "after a revoke_and_ack that arrived before our commitment_signed for counterparty commitment %d was signed (its monitor update in flight, step %d) the node signs commitment %d: the signer is asked to skip a commitment number (%s)"
                                   % (early_unsigned[2], early_unsigned[0], early_unsigned[2] - 1, m2.group(0)),
                            "replay": rp, "key": KNOWN_F2, "node": early_unsigned[1]})
-        elif rec.get("panic") and early and "We have fallen behind" in str(rec["panic"]):
-            # the harness revealed the peer's current secret (raa_early, accepted because a revocation WAS awaited);
-            # the peer later sees proof of a secret it never released and panics on purpose (data-loss protection)
+        elif rec.get("panic") and early and ("We have fallen behind" in str(rec["panic"])
+                                             or "can only revoke the current or next unrevoked commitment" in str(rec["panic"])):
+            # the harness revealed the current secret of a node from its raw key material (raa_early, accepted by the
+            # other side because a revocation WAS awaited) although that node had not released it: the world then
+            # runs ahead of that node. It later sees proof of a secret it never released and panics on purpose
+            # (data-loss protection), or is sent a second commitment_signed before its own revoke_and_ack went out
+            # and the test signer refuses to release two secrets at once. Artefacts of the injection, counted.
             n_fallen_behind[0] += 1
         elif rec.get("panic"):
             panics.append({"why": "panic in the node or in the test signer's own policy assertions: " + str(rec["panic"])[:300], "replay": rp,
@@ -513,6 +537,10 @@ def revoke_corr(ctx, model_ok, release=False):
             c = (st.get("args") or {}).get("corrupt")
             if c:
                 corrupt_hist[c] = corrupt_hist.get(c, 0) + 1
+            a = st.get("args") or {}
+            if st["act"] == "deliver" and a.get("corrupt") in ("raa_early", "raa_extra") and trs[st["node"]].view is not None:
+                # the secret the harness took from the sender's key material IS that node's secret for this number
+                trs[1 - st["node"]].released.setdefault(trs[st["node"]].view["cn"] + 1, a.get("secret"))
             for n in (0, 1):
                 trs[n].add_step(st, st["obs"][n])
                 for l in st["obs"][n]["log"]:
